@@ -16,6 +16,7 @@ import numpy as np
 from ..core import import_library
 from ..gen import engines as E
 from ..gen import terms as G
+from ..env import ENVIRONMENTS, excusable, hostile
 from ..probe import Probe, Reach, plain_function
 from ..ref import norms as N
 from ..ref import wiring as W
@@ -24,7 +25,7 @@ WORKERS = {"quick": 1, "thorough": 16}
 nan, inf = math.nan, math.inf
 
 
-def parse_consequent(text):
+def parse_consequent(text, extra=()):
     toks, out, i = text.split(), [], 0
     while i < len(toks):
         var = toks[i]
@@ -32,7 +33,7 @@ def parse_consequent(text):
             raise W.RuleSyntax("expected is")
         i += 2
         hs = []
-        while toks[i] in W.HEDGE_NAMES:
+        while toks[i] in W.HEDGE_NAMES or toks[i] in extra:
             hs.append(toks[i])
             i += 1
         out.append((var, hs, toks[i]))
@@ -51,6 +52,7 @@ class ConsequentMonitor:
         self.setter_calls = 0
         self.rejected = set()  # id(rule) of rules whose load the workload saw rejected: triggering them must add nothing
         self.engine_of = {}  # id(rule) -> engine the workload says the rule belongs to (its output variables are the ones meant)
+        self.user_hedges = {}  # id(rule) -> [hedge functions per conclusion] the workload configured for hedges of its own classes
 
     def install(self, probe):
         fl = self.fl
@@ -96,8 +98,9 @@ class ConsequentMonitor:
         if exc is not None:
             ctx.hit(f"event:trigger raised {type(exc).__name__}")
             return
+        own = self.user_hedges.get(id(rule))
         try:
-            concl = parse_consequent(rule.consequent.text)
+            concl = parse_consequent(rule.consequent.text, extra=("power",) if own else ())
         except (W.RuleSyntax, IndexError):
             ctx.hit("out_of_domain:consequent outside the documented grammar")
             return
@@ -112,7 +115,7 @@ class ConsequentMonitor:
         case = {"rule": rule.text, "rule_enabled": st["enabled"], "degree": deg, "variables_enabled": {n: bool(v.enabled) for n, v in st["outs"].items()}}
         expected = {n: [] for n in st["outs"]}
         if st["enabled"]:
-            for var, hs, term in concl:
+            for ci, (var, hs, term) in enumerate(concl):
                 ov = st["outs"].get(var)
                 if ov is None:
                     ctx.hit("out_of_domain:conclusion on an unknown variable")
@@ -121,8 +124,9 @@ class ConsequentMonitor:
                     ctx.hit("piece:conclusion on a disabled variable")
                     continue
                 d = fl.scalar(deg)
-                for h in reversed(hs):
-                    d = self.H[h].hedge(d)
+                for hi in reversed(range(len(hs))):
+                    # (a hedge of the workload's own class: the function the workload configured for this very conclusion)
+                    d = self.H[hs[hi]].hedge(d) if hs[hi] in self.H else fl.scalar(own[ci][hi](d))
                 expected[var].append((ov.term(term), np.nan_to_num(d, nan=0.0, neginf=0.0, posinf=1.0), hs))
         else:
             ctx.hit("piece:disabled rule")
@@ -150,8 +154,8 @@ class ConsequentMonitor:
                     mech = "an added activation's degree is not the rule degree modified by its own hedges"
                     listed = fl.scalar(deg)
                     for h in hs:
-                        listed = self.H[h].hedge(listed)
-                    if len(hs) > 1 and W.same(act.degree, np.nan_to_num(listed, nan=0.0, neginf=0.0, posinf=1.0)):
+                        listed = self.H[h].hedge(listed) if h in self.H else listed
+                    if len(hs) > 1 and all(h in self.H for h in hs) and W.same(act.degree, np.nan_to_num(listed, nan=0.0, neginf=0.0, posinf=1.0)):
                         mech += " (hedges applied in listed order instead of nearest-the-term first)"
                     ctx.violation(mech, dict(case, variable=n, position=k, hedges=hs), d, act.degree)
                     return
@@ -205,6 +209,7 @@ def run(ctx):
     )
     ctx.assumptions += ["hedges are applied nearest-the-term first, as the rule grammar (C06) states", "bit-exact comparison; hedge.hedge is the library's own (C05)"]
     funcs = {"Consequent.modify": fl.Consequent.modify, "Consequent.load": fl.Consequent.load, "Rule.trigger": fl.Rule.trigger, "Activated.degree.setter": plain_function(fl.Activated, "degree")}
+    ctx.excuse = lambda mechanism, observed, note: excusable(observed)
     with Reach(funcs) as reach, Probe() as probe:
         mon = ConsequentMonitor(ctx, fl)
         mon.install(probe)
@@ -235,12 +240,14 @@ def run(ctx):
                     engine.rule_blocks.clear()
                     ctx.hit("route:rule of a duplicated engine (" + how + ")")
                 mon.engine_of = {id(rule): target}
+                envname = ENVIRONMENTS[(i // 9) % len(ENVIRONMENTS)] if i % 9 == 4 else None
                 for di, d in enumerate(degs):
                     for ov in engine.output_variables + (target.output_variables if target is not engine else []):
                         ov.fuzzy.clear()
                     rule.activation_degree = fl.scalar(d)  # stub antecedent degree
                     try:
-                        rule.trigger(implication)
+                        with hostile(fl, envname, ctx):
+                            rule.trigger(implication)
                     except Exception as ex:
                         ctx.violation(f"trigger raised {type(ex).__name__} on a loaded rule", {"rule": text, "degree": d}, "no error", repr(ex)[:200])
                         continue
@@ -282,6 +289,33 @@ def run(ctx):
                     results.setdefault(key, got)
                     ctx.hit("law:permutation")
                     ctx.evaluated()
+            if i % 3 == 1 and engine.output_variables:
+                # a concluded term, or a whole output variable, is replaced by a new object of the same name (same number of terms)
+                # and the rule is loaded again: its conclusions are about the objects the engine holds now
+                text = "if in0 is t then " + " and ".join(E.prop_text(c) for c in concl) + E.weight_text(w, 3)
+                try:
+                    rule = E.make_rule(fl, rnd, text, engine)
+                    k = rnd.randrange(len(engine.output_variables))
+                    if rnd.random() < 0.5:
+                        old = engine.output_variables[k]
+                        engine.output_variables[k] = fl.OutputVariable(old.name, old.description, old.enabled, old.minimum, old.maximum, old.lock_range, old.lock_previous, old.default_value, old.aggregation, old.defuzzifier, [copy.copy(t) for t in old.terms])
+                    else:
+                        ov = engine.output_variables[k]
+                        j = rnd.randrange(len(ov.terms))
+                        ov.terms[j] = copy.copy(ov.terms[j])
+                    for how in range(2):
+                        if how == 0:
+                            rule.load(engine)
+                        else:
+                            rule = fl.Rule.create(text, engine)  # and a new rule object, loaded for the first time
+                        mon.engine_of = {id(rule): engine}
+                        for ov in engine.output_variables:
+                            ov.fuzzy.clear()
+                        rule.activation_degree = fl.scalar(rnd.choice([0.5, 1.0, 0.25]))
+                        rule.trigger(implication)
+                    ctx.hit("event:a concluded term or variable is replaced by a same-named object and the rule loaded again")
+                except Exception as ex:
+                    ctx.violation(f"reloading a rule after a same-named replacement raised {type(ex).__name__}", {"rule": text}, "no error", repr(ex)[:200])
             if i % 5 == 0:
                 # a consequent that goes wrong after its first conclusion: the load is rejected and the rule stays out
                 bad = "if in0 is t then " + E.prop_text(concl[0]) + rnd.choice([" and nosuchvariable is x", f" and {specs[0]['name']} is nosuchterm", f" and {specs[0]['name']} is", " and", f" and {specs[0]['name']} very"])
@@ -303,8 +337,66 @@ def run(ctx):
                 mon.rejected = set()
             if i < 3:
                 ctx.sample("consequent", {"rule": text, "rule_enabled": enabled, "degrees": degs, "contributions": results.get(0)})
+        # hedges of a user's own class, registered under one name, each object with a setting of its own: a conclusion is
+        # modified by its own hedge objects, whatever other conclusions (with equally named hedges) do
+        class Power(fl.Hedge):
+            def __init__(self, exponent=2.0):
+                self.exponent = exponent
+
+            def hedge(self, x):
+                return fl.scalar(x) ** self.exponent
+
+        for i, rnd in ctx.cases("user hedges", ctx.scale(60, 1500)):
+            engine, specs = make_engine(fl, rnd)
+            concl = []
+            for _ in range(rnd.randint(2, 3)):
+                c = E.gen_prop(rnd, rnd.choice(specs), max_hedges=1, allow_any=False)
+                c["hedges"] = rnd.choice([["power"], ["power"], ["very", "power"], ["power", "not"], ["power", "power"]])
+                concl.append(c)
+            exps = [[rnd.choice([0.5, 2.0, 3.0, 1.5]) for _ in c["hedges"]] for c in concl]
+            implication = fl.Minimum()
+            manager = fl.FactoryManager()
+            manager.hedge.constructors["power"] = Power
+            results = {}
+            with fl.settings.context(factory_manager=manager):
+                for perm in itertools.permutations(range(len(concl))):
+                    text = "if in0 is t then " + " and ".join(E.prop_text(concl[k]) for k in perm)
+                    try:
+                        rule = fl.Rule.create(text, engine)
+                    except Exception as ex:
+                        ctx.violation(f"a consequent with a registered user hedge is rejected ({type(ex).__name__})", {"rule": text}, "loaded", repr(ex)[:200])
+                        break
+                    funcs_of = []
+                    for pos, k in enumerate(perm):
+                        fs = []
+                        for hi, (name, hedge) in enumerate(zip(concl[k]["hedges"], rule.consequent.conclusions[pos].hedges)):
+                            if name == "power":
+                                hedge.exponent = exps[k][hi]
+                                fs.append(lambda x, e=exps[k][hi]: np.asarray(x, dtype=float) ** e)
+                            else:
+                                fs.append(None)
+                        funcs_of.append(fs)
+                    mon.user_hedges = {id(rule): funcs_of}
+                    mon.engine_of = {id(rule): engine}
+                    for d in (0.25, 0.5, np.array([0.0, 0.3, 0.9, 1.0])):
+                        for ov in engine.output_variables:
+                            ov.fuzzy.clear()
+                        rule.activation_degree = fl.scalar(d)
+                        try:
+                            rule.trigger(implication)
+                        except Exception as ex:
+                            ctx.violation(f"trigger raised {type(ex).__name__} on a loaded rule", {"rule": text, "degree": d}, "no error", repr(ex)[:200])
+                            continue
+                        got = {ov.name: sorted((a.term.name, tuple(np.asarray(a.degree, dtype=float).ravel().tolist())) for a in ov.fuzzy.terms) for ov in engine.output_variables}
+                        key = repr(d)
+                        if key in results and results[key] != got:
+                            ctx.violation("reordering the conclusions of a rule changes what they contribute", {"rule": text, "degree": d, "order": list(perm)}, results[key], got)
+                        results.setdefault(key, got)
+                    ctx.hit("workload:conclusions with equally named user hedges of different settings")
+            mon.user_hedges = {}
         probe.report(ctx)
         reach.report(ctx)
+    ctx.require("workload:conclusions with equally named user hedges of different settings", "event:a concluded term or variable is replaced by a same-named object and the rule loaded again", *[f"environment:{e}" for e in ENVIRONMENTS])
     ctx.require("hook:Rule.trigger", "hook:Consequent.modify", "hook:Activated.degree.setter", "compare:appended terms", "law:permutation", "piece:disabled rule", "piece:conclusion on a disabled variable", "piece:hedged conclusion", "piece:hedge on an earlier conclusion of several", "piece:rule whose load was rejected", "event:triggered again under another implication operator", "event:variable enabled flag changed between two triggers of a loaded rule", "degree:batch", "degree:grid", "route:rule of a duplicated engine (copy)", "route:rule of a duplicated engine (deepcopy)", "degree:nan", "degree:inf", "degree:zero", "degree:partial")
 
 
